@@ -1822,7 +1822,12 @@ class AclMachine(Machine):
             self._plan = [(t, "permute_popins", {}), (t, "permute_popins", {}),
                           (t, "sort", {"reverse": False, "key": None})]
             nl_ = len(self.slots[t]["m"].flat())
-            if cfg["aborts"] and nl_ >= 1 and s.random() < 0.5:
+            if s.random() < 0.3:
+                # ... and, before that, the middle reordered and the same renumbering once more:
+                # first and last entry still carry the right numbers, the ones between do not
+                self._plan[:0] = [(t, "permute_popins", {"i": 1, "j": 2}),
+                                  (t, "resequence", {k_: op[k_] for k_ in op if k_ != "memo"})]
+            elif cfg["aborts"] and nl_ >= 1 and s.random() < 0.5:
                 # an entry appended behind the blocks, a renumbering that succeeds, one that is
                 # refused because the last numbers do not fit, then reorder and sort: the refused
                 # call must not spoil the order sort() works by
